@@ -93,6 +93,16 @@ def words_for(lang, rng=None, n_compounds=400):
     return sorted(words)
 
 
+def affixed(lang):
+    """every vocabulary word with a punctuation character the tokenizer leaves glued to it (trailing dash / apostrophe /
+    typographic apostrophe), or handed over by a caller's own tokenizer (leading dash, trailing period or comma)"""
+    base = [w for w in source_literals(lang) if w and " " not in w and not w.isdigit()]
+    out = []
+    for w in base:
+        out += [w + "-", "-" + w, w + "'", "'" + w, w + "\u2019", w + ".", w + ",", w + "--"]
+    return out
+
+
 MARKERS = {
     "en": ["th", "ths", "st", "nd", "rd", "rds"],
     "fr": ["ème", "èmes", "er", "ers", "ère", "ères"],
